@@ -314,12 +314,13 @@ impl Scenario for C14Des {
     }
     let h = hash_str(&trace);
     drop(tgt);
+    let sim_end = w.now();
     drop(w);
     Ok(Outcome {
       violation,
       trace_hash: h,
       nontrivial: polls_pending > 0 || post_terminal > 0 || matches!(terminal, Some(Ev::Err(_))),
-      sim_ns: 0,
+      sim_ns: sim_end,
       steps: acts.len() as u64,
       faults: vec![
         ("event_after_terminal", post_terminal),
